@@ -47,7 +47,7 @@ theorem send_eq (k : Kcp) (buffer : Bytes) :
       let k1 := { k with snd_queue := sendQ1 k buffer }
       if k.stream ≠ 0 ∧ buf.length = 0 then ⟨k1, 0, false⟩ else
       let count := if buf.length ≤ k.mss.toNat then 1 else (buf.length + k.mss.toNat - 1) / k.mss.toNat
-      if count > 255 then ⟨k1, -2, false⟩ else
+      if count > 255 then ⟨k, -2, false⟩ else
       let count := if count = 0 then 1 else count
       if min buf.length k.mss.toNat > mtuLimit then ⟨k1, 0, true⟩ else
       ⟨{ k1 with snd_queue := sendQ1 k buffer ++ mkSegs k.mss.toNat (k.stream ≠ 0) count buf }, 0, false⟩ := rfl
@@ -108,7 +108,7 @@ theorem send_total {k : Kcp} (h : InvK k) (buffer : Bytes) :
     · exact ⟨rfl, hk1⟩
     · generalize (if (List.drop (sendExt k buffer) buffer).length ≤ k.mss.toNat then 1 else _) = count
       split
-      · exact ⟨rfl, hk1⟩
+      · exact ⟨rfl, h⟩
       · have hm := h.mss_le
         rw [if_neg (by omega)]
         exact ⟨rfl, h.congr rfl rfl rfl (hq1.append (mkSegs_dataLe _ _ _ _)) h.sndb h.rcvb h.rcvq⟩
